@@ -170,6 +170,10 @@ class FrpProp(Prop):
             return "no specification output"
         if any("illegal" in x for x in mo):
             return None     # not a legal program (instantaneous cycle): nothing is specified
+        if any(x.startswith("inconclusive:") for x in mo):
+            # the guided search over allowed orders of deferred transactions ran out of budget before finding the
+            # implementation's order: neither agreement nor disagreement is established; counted in the evidence
+            return "INCONCLUSIVE: order search budget exhausted"
         mo_full = mo
         mo = strip_ann(mo)
         if io2 == mo:
@@ -219,6 +223,7 @@ class FrpProp(Prop):
     def extra_coverage(self):
         return {"profile": {k: v for k, v in self.profile.__dict__.items()},
                 "input_distribution": getattr(self, "_dist", {})}
+
 
 
 class C02(FrpProp):
